@@ -354,6 +354,7 @@ struct Monitor {
     std::string caseText;
     std::string ctx;      // context of the observation, part of every key: ":restart", ":layout-differs", ...
     bool ministepIdsKnown = true;
+    bool slotOrderKnown = true;           // RunDef::vecs is in PARAMS order
     std::vector<std::string> available;   // sorted keys the reader at hand lists (set by checkStructure)
     std::vector<std::string> listed(const std::vector<std::string>& keys) const {
         std::vector<std::string> v;
@@ -589,6 +590,29 @@ static void checkESmryOnly(Monitor& m, const std::string& reader, ESmry& e, cons
         try { e.timestepIdxAtReportstepStart((int)c.rstep.size() + 1); } catch (const std::invalid_argument&) { threw = true; }
         if (!threw) m.viol("rstep-index-range:" + reader + sfx, reader + ": report step " + std::to_string(c.rstep.size() + 1) + " accepted although only " + std::to_string(c.rstep.size()) + " were written", "");
     }
+    // lookup through SummaryNode (keyword, category, name, number) must lead to the same series as the lookup key
+    if (m.slotOrderKnown && c.runs.size() == 1) {
+        const auto& nodes = e.summaryNodeList();
+        std::vector<const VecDef*> live;
+        for (const auto& v : top.vecs) if (!v.key.empty()) live.push_back(&v);
+        if (nodes.size() != live.size())
+            m.viol("summary-nodes:" + reader + sfx, reader + ": summaryNodeList() has " + std::to_string(nodes.size()) + " entries for " + std::to_string(live.size()) + " addressable vectors", "");
+        else {
+            const size_t stride = std::max<size_t>(1, nodes.size() / 150);
+            for (size_t j = 0; j < nodes.size(); j += stride) {
+                std::string why;
+                try {
+                    if (&e.get(nodes[j]) != &e.get(live[j]->key)) why = "leads to another series than";
+                    else if (e.get_unit(nodes[j]) != live[j]->unit) why = "has another unit than";
+                } catch (const std::exception& ex) { why = std::string("is refused (") + ex.what() + ") unlike"; }
+                m.rep.count("node_lookups");
+                if (!why.empty()) {
+                    m.viol("node-lookup:" + reader + sfx, reader + ": lookup by SummaryNode for KEYWORDS='" + live[j]->kw + "' WGNAMES='" + live[j]->wg + "' NUMS=" + std::to_string(live[j]->num) + " " + why + " key " + live[j]->key, "");
+                    break;
+                }
+            }
+        }
+    }
     const bool av = e.all_steps_available();
     if (m.ministepIdsKnown && av != c.allStepsAvailable)
         m.viol("ministep-ids:" + reader + sfx, reader + ": all_steps_available() = " + std::to_string(av) + " but the MINISTEP ids written " + (c.allStepsAvailable ? "are consecutive" : "have gaps"), "");
@@ -604,12 +628,14 @@ struct ExamineOpts {
     bool skipFmtSeek = false, noFork = false;
     bool directEsmry = false;     // the writer itself produced <run>.ESMRY for every run: read those instead of converting
     bool ministepIdsKnown = true; // MINISTEP ids in RunDef are what was written (false: chosen by the writer, not compared)
+    bool slotOrderKnown = true;   // RunDef::vecs is in PARAMS order (false: order chosen by the writer)
 };
 
 // returns true when every reader path ran to its end
 static bool examine(vh::Reporter& rep, Rng& rng, Monitor& m, const std::vector<const RunDef*>& all, const ExamineOpts& o) {
     const int depth = (int)all.size() - 1;
     m.ministepIdsKnown = o.ministepIdsKnown;
+    m.slotOrderKnown = o.slotOrderKnown;
     const Chain own = makeChain({all.back()});
     const Chain full = makeChain(all);
     const RunDef& top = *all.back();
